@@ -9,7 +9,7 @@ Local Open Scope N_scope.
 Record rbug := mkrbug {
   r_id : N; r_cl : N; r_cu : N; r_el : N; r_eu : N; r_author : nat; r_status : N;
   r_labels : list str; r_title : str; r_actors : list nat; r_parts : list nat;
-  r_meta : list (str * str); r_words : list str }.
+  r_meta : list (str * str); r_texts : list (list str) }.
 
 Inductive eobs := EParseErr | EQueryErr | EIds (l : list N).
 (* e_obs2: a second evaluation of the same parsed query (the answer must not depend on the call) *)
@@ -19,7 +19,7 @@ Record case := mkecase { e_idents : list ident; e_bugs : list rbug; e_queries : 
 Definition no_ident := mkident [] [] [].
 Definition resolve (ids : list ident) (r : rbug) : bug :=
   mkbug (r_id r) (r_cl r) (r_cu r) (r_el r) (r_eu r) (nth (r_author r) ids no_ident) (r_status r) (r_labels r) (r_title r)
-        (map (fun i => nth i ids no_ident) (r_actors r)) (map (fun i => nth i ids no_ident) (r_parts r)) (r_meta r) (r_words r).
+        (map (fun i => nth i ids no_ident) (r_actors r)) (map (fun i => nth i ids no_ident) (r_parts r)) (r_meta r) (r_texts r).
 
 Definition population (c : case) : list bug := map (resolve (e_idents c)) (e_bugs c).
 
